@@ -1033,6 +1033,7 @@ func (fr *Frame) runRegion(region map[*ssa.BasicBlock]bool, start *ssa.BasicBloc
 			continue
 		}
 		st := mergeStates(live, fmt.Sprintf("%s.b%d", fr.fn.Name(), b.Index), func(t *Term) { c.addDef(t) })
+		fr.curBlock = b
 		if _, isHeader := fr.cfg.loopOf[b]; isHeader && !(b == start && dryHeader) {
 			st = fr.cutLoop(b, st)
 			if st == nil {
@@ -1233,6 +1234,7 @@ func rootAlloc(v ssa.Value) (*ssa.Alloc, bool) {
 }
 
 func (fr *Frame) cutLoop(h *ssa.BasicBlock, st *State) *State {
+	fr.curBlock = h
 	c := fr.c
 	ord := fr.cfg.ordinal[h]
 	var spec *LoopSpec
